@@ -8,19 +8,22 @@ FUNCS = 'pyrtl.conditional (_current_select, _check_and_add_pred_set, _finalize)
 def _one(tree):
     import time
     import traceback
+    task = tree
     try:
         import z3
         import pyrtl
         from fam import condtrees as CT
         from elab.n2smt import Sym, model_int
         from spec.ops import BVOps, SV, IntOps
+        task = tree
+        tree = CT.unwrap(task)
         try:
             tags, used = CT.elaborate(tree)
             accepted = True
         except pyrtl.PyrtlError:
             accepted = False
         except Exception as e:
-            return dict(tree=tree, status='raised', why='%s: %s' % (type(e).__name__, str(e)[:200]))
+            return dict(tree=task, status='raised', why='%s: %s' % (type(e).__name__, str(e)[:200]))
         # semantic exclusivity by the reference interpreter (8 predicate valuations)
         if not accepted:
             tags = {}
@@ -36,9 +39,9 @@ def _one(tree):
                 if sum(1 for c, _ in lst if c) > 1:
                     nonexcl = (tg, val)
         if not accepted:
-            return dict(tree=tree, status='rejected', nonexclusive=bool(nonexcl))
+            return dict(tree=task, status='rejected', nonexclusive=bool(nonexcl))
         if nonexcl:
-            return dict(tree=tree, status='accepted-nonexclusive', why=str(nonexcl))
+            return dict(tree=task, status='accepted-nonexclusive', why=str(nonexcl))
         block = pyrtl.working_block()
         sym = Sym(block)
         ins = sym.fresh_inputs('c')
@@ -88,43 +91,10 @@ def _one(tree):
                        reg0=model_int(m, st['regs'][bn['reg']]), regd0=model_int(m, st['regs'][bn['regd']]),
                        mem0={str(a_): model_int(m, z3.Select(st['mems'][mem], z3.BitVecVal(a_, 1)))
                              for a_ in (0, 1)})
-            return dict(tree=tree, status='refuted', cex=cex, solver_s=dt)
-        return dict(tree=tree, status='proved' if r == z3.unsat else 'unknown', solver_s=dt)
+            return dict(tree=task, status='refuted', cex=cex, solver_s=dt)
+        return dict(tree=task, status='proved' if r == z3.unsat else 'unknown', solver_s=dt)
     except Exception:
-        return dict(tree=tree, status='crash', why=traceback.format_exc()[-1500:])
-
-
-def exclusion_lemma(ctx):
-    """Lemma over the contract of _finalize: with FOLD(0) = D, FOLD(k+1) = R(k) if P(k) else FOLD(k),
-    and at most one active predicate (what _check_and_add_pred_set enforces), FOLD(N) is the rhs of
-    the unique active branch, else the default.  Induction on k: base and step discharged by z3."""
-    import time
-    import z3
-    Int = z3.IntSort()
-    FOLD, P, R = z3.Function('FOLD', Int, Int), z3.Function('P', Int, Int), z3.Function('R', Int, Int)
-    D, N, i, k, j = z3.Ints('D N i k j')
-    uniq = z3.ForAll([j], z3.Implies(z3.And(0 <= j, j < N, j != i), P(j) == 0))
-    claim = lambda kk: z3.And(z3.Implies(z3.And(0 <= i, i < kk, P(i) != 0), FOLD(kk) == R(i)),      # noqa: E731
-                              z3.Implies(z3.Or(i >= kk, i < 0, P(i) == 0), FOLD(kk) == D))
-    rec = FOLD(k + 1) == z3.If(P(k) != 0, R(k), FOLD(k))
-    goals = {
-        'base: FOLD(0) is the default': ([FOLD(0) == D], claim(z3.IntVal(0))),
-        'step: the claim is preserved by one more branch':
-            ([uniq, 0 <= k, k < N, rec, claim(k)], claim(k + 1)),
-        'conclusion: the unique active branch wins, else the default':
-            ([claim(N), 0 <= i, i < N], z3.And(z3.Implies(P(i) != 0, FOLD(N) == R(i)),
-                                               z3.Implies(P(i) == 0, FOLD(N) == D))),
-    }
-    for nm, (hyps, goal) in goals.items():
-        s_ = z3.Solver()
-        s_.set('timeout', 20000)
-        s_.add(*hyps)
-        s_.add(z3.Not(goal))
-        t0 = time.time()
-        r = s_.check()
-        ctx.obligation('C07.lemma:exclusion ' + nm, 'contract of pyrtl.conditional._finalize',
-                       'proved' if r == z3.unsat else 'undecided', 'z3', time.time() - t0,
-                       detail=None if r == z3.unsat else str(r))
+        return dict(tree=task, status='crash', why=traceback.format_exc()[-1500:])
 
 
 def run(ctx):
@@ -132,12 +102,11 @@ def run(ctx):
     from pyvc.contract import REGISTRY
     from pyvc import run as prun
     prun.run_contracts(ctx, [c for c in REGISTRY.values() if 'C07' in c.props], 'contracts.conditional')
-    exclusion_lemma(ctx)
     ctx.assume('_finalize contract: builder model (contracts/wiremodel.py); every rhs already has the width of '
                'its target (established by _prepare_for_assignment before it is recorded); predicates are one '
-               'bit; _current_select / _check_and_add_pred_set (the predicate construction and the exclusion '
-               'check): bounded family; induction principle over the number of branches is the meta-argument '
-               'of the exclusion lemma')
+               'bit; PRECONDITION at most one predicate of a target is 1 (what _check_and_add_pred_set enforces); '
+               '_current_select / _check_and_add_pred_set (the predicate construction and the exclusion '
+               'check): bounded family')
     from fam import condtrees as CT
     import random
     trees = list(CT.handmade_trees())
@@ -154,6 +123,9 @@ def run(ctx):
         big = CT.enumerate_trees(5, 3, ('w',))
         random.Random(ctx.seed).shuffle(big)
         trees += big[:3000]
+    # one-bit data (targets, defaults, values): every tree with a `defaults` / register / memory target once more
+    narrow = [t for t in trees if any(tg.rstrip('!') in ('wd', 'regd', 'regh', 'mem') for _, tg in CT.assignments(t))]
+    trees = trees + [dict(W=1, tree=t) for t in narrow[::2 if ctx.tier == 'quick' else 1]]
     res = passcheck.pmap(_one, trees)
     cnt = {}
     solver_s = 0.0
@@ -188,17 +160,20 @@ def run(ctx):
     ctx.family('C07.condition_trees', 'PB', instances=len(trees), smt_queries=acc, nontrivial=acc,
                solver_s=solver_s, exhaustive=False,
                bound='condition trees (<=3 with-blocks depth 2 over {wire, register} complete; defaults/'
-                     'memory targets <=2..3 blocks complete; 4-5 blocks sampled); verdicts %s; accepted '
+                     'memory targets <=2..3 blocks complete, also with one-bit data; 4-5 blocks sampled); verdicts %s; accepted '
                      'programs decided for all predicate/data valuations and register/memory states; '
                      'non-exclusive programs must be rejected (converse not demanded)' % cnt,
-               sample=dict(tree=trees[len(trees) // 2]))
+               sample=dict(tree=trees[len(trees) // 4]))
     ctx.assume('z3 soundness; spec/netsem.py; reference tree interpreter fam/condtrees.py')
     return ctx.finish('other', './check C07', ['z3', 'pyvc', 'spec/netsem.py', 'elab/n2smt.py'],
-                      'P: _finalize folds any number of (predicate, rhs) branches into the documented select chain '
-                      '(wires, registers with default self, `defaults`, memory write ports) + exclusion lemma; '
+                      'P: _finalize gives every target the rhs of its unique active branch, else its default, for any '
+                      'number of branches (wires, registers with default self, `defaults`, memory write ports), '
+                      'under the exclusion precondition; '
                       'bounded stand-in: every enumerated condition tree elaborated by the real '
                       'conditional.py and decided by SMT against the tree interpreter')
 
 
 def _show(t):
+    if isinstance(t, dict):
+        return 'W=%d|' % t['W'] + _show(t['tree'])
     return ';'.join('%s:%s{%s}' % (p, '+'.join(a), _show(c)) for p, a, c in t)
